@@ -304,3 +304,96 @@ Fixpoint declare_all (r : registry) (specs : list (list str)) : registry * list 
   | [] => (r, [])
   | s :: rest => let '(r', m) := declare r s in let '(r'', ms) := declare_all r' rest in (r'', m :: ms)
   end.
+
+(* ---- walker dispatch: tatsu/walkers.py NodeWalker._find_walker, the per-walker-class cache and
+        NodeWalker.__init_subclass__ ---- *)
+(* the node classes: class name -> names of its __bases__ in order *)
+Definition cgraph := list (str * list str).
+Fixpoint bases_of (g : cgraph) (c : str) : list str :=
+  match g with [] => [] | e :: r => if str_eqb (fst e) c then snd e else bases_of r c end.
+Definition mem_str (x : str) (l : list str) : bool := existsb (str_eqb x) l.
+
+Definition walk_pfx : str := [119; 97; 108; 107; 95]%N.                                 (* walk_ *)
+Fixpoint lstrip_us (s : str) : str :=
+  match s with c :: r => if N.eqb c 95 then lstrip_us r else s | [] => [] end.           (* .lstrip('_') *)
+(* possible_walker_names with the prefix: walk_<Name>, walk__<pythonic>, walk_<pythonic.lstrip('_')>.
+   [snake] = util.pythonize_name (regular expressions: an oracle table supplied by the harness) *)
+Definition walker_names (snake : str -> str) (c : str) : list str :=
+  [walk_pfx ++ c; walk_pfx ++ (95%N :: snake c); walk_pfx ++ lstrip_us (snake c)].
+Definition default_names : list str :=
+  [ [95; 119; 97; 108; 107; 95; 95; 100; 101; 102; 97; 117; 108; 116];                    (* _walk__default *)
+    [95; 119; 97; 108; 107; 95; 100; 101; 102; 97; 117; 108; 116];                        (* _walk_default *)
+    [119; 97; 108; 107; 95; 95; 100; 101; 102; 97; 117; 108; 116];                        (* walk__default *)
+    [119; 97; 108; 107; 95; 100; 101; 102; 97; 117; 108; 116] ]%N.                        (* walk_default *)
+
+(* the `while class_stack and not walker` loop.  [rs] is class_stack reversed (head = the element pop() takes);
+   `class_stack = [*bases, *class_stack]` with bases filtered by `b not in class_stack` becomes rest ++ rev bases.
+   [has] = `callable(getattr(walker class, name, None))`.  The loop of the code has no fuel: running out of fuel
+   is reported as [Some []] (no method has the empty name). *)
+Fixpoint search (fuel : nat) (g : cgraph) (snake : str -> str) (has : str -> bool) (rs : list str) {struct fuel}
+  : option str :=
+  match rs with
+  | [] => None
+  | c :: rest =>
+    match fuel with
+    | 0 => Some []
+    | S f =>
+      match find has (walker_names snake c) with
+      | Some m => Some m
+      | None => search f g snake has
+                  (rest ++ rev (filter (fun b => negb (mem_str b rest)) (bases_of g c)))
+      end
+    end
+  end.
+
+(* the uncached resolution: the search, then the default methods *)
+Definition resolve (fuel : nat) (g : cgraph) (snake : str -> str) (has : str -> bool) (c : str) : option str :=
+  match search fuel g snake has [c] with
+  | Some m => Some m
+  | None => find has default_names
+  end.
+
+(* _walker_cache: node class __qualname__ -> method | None  (a dict: the newest entry of a key wins) *)
+Definition wcache := list (str * option str).
+Fixpoint cache_get (k : wcache) (c : str) : option (option str) :=
+  match k with [] => None | e :: r => if str_eqb (fst e) c then Some (snd e) else cache_get r c end.
+(* _find_walker: a cached method is returned as is (a cached None is recomputed: `if walker := cache.get(..)`) *)
+Definition find_walker (fuel : nat) (g : cgraph) (snake : str -> str) (has : str -> bool) (k : wcache) (c : str)
+  : option str * wcache :=
+  match cache_get k c with
+  | Some (Some m) => (Some m, k)
+  | _ => let w := resolve fuel g snake has c in (w, (c, w) :: k)
+  end.
+
+(* histories over several walker classes: a class statement runs __init_subclass__, which gives the new class an
+   EMPTY cache of its own (whatever its parent has cached); a lookup uses and updates the cache of the class of
+   the walker instance.  The node class graph is part of the lookup: the cache is keyed by the class NAME, and
+   two different classes of the same name (synthesized / generated) may be looked up. *)
+Inductive wstep : Type :=
+| WDeclare (w : N)
+| WLook (w : N) (g : cgraph) (c : str).
+Definition wstate := list (N * wcache).
+Fixpoint cache_of (st : wstate) (w : N) : wcache :=
+  match st with [] => [] | e :: r => if N.eqb (fst e) w then snd e else cache_of r w end.
+Fixpoint run_walkers (fuel : nat) (snake : str -> str) (has : N -> str -> bool) (st : wstate) (steps : list wstep)
+  : list (option str) :=
+  match steps with
+  | [] => []
+  | WDeclare w :: r => run_walkers fuel snake has ((w, []) :: st) r
+  | WLook w g c :: r =>
+      let res := find_walker fuel g snake (has w) (cache_of st w) c in
+      fst res :: run_walkers fuel snake has ((w, snd res) :: st) r
+  end.
+(* the lookups of a history *)
+Fixpoint looks (steps : list wstep) : list (N * cgraph * str) :=
+  match steps with
+  | [] => []
+  | WDeclare _ :: r => looks r
+  | WLook w g c :: r => (w, g, c) :: looks r
+  end.
+(* specification side: the nearest class of a linearisation that the walker has a method for *)
+Fixpoint nearest (snake : str -> str) (has : str -> bool) (mro : list str) : option str :=
+  match mro with
+  | [] => None
+  | c :: r => match find has (walker_names snake c) with Some m => Some m | None => nearest snake has r end
+  end.
